@@ -23,10 +23,16 @@ CARRIERS = {
     'array': lambda n: np.array([n, 2 * n]),
     # fractional entries: sums strictly between 0 and 1 occur
     'farray': lambda n: np.array([n / 2.0, n / 4.0]),
+    # quantities, scalar and array-valued
+    'quantity': lambda n: (n / 4.0) * units.mg,
+    'qarray': lambda n: np.array([n / 2.0, n / 4.0]) * units.mg,
 }
 
 
 def eq(a, b):
+    if hasattr(a, 'magnitude') or hasattr(b, 'magnitude'):
+        return hasattr(a, 'magnitude') and hasattr(b, 'magnitude') \
+            and str(a.units) == str(b.units) and eq(a.magnitude, b.magnitude)
     if isinstance(a, np.ndarray) or isinstance(b, np.ndarray):
         return isinstance(a, np.ndarray) and isinstance(b, np.ndarray) \
             and a.shape == b.shape and bool(np.all(a == b))
